@@ -47,7 +47,7 @@ func runC16(c *Ctx) {
 			if fn == nil {
 				return true
 			}
-			if fullName(fn) == "strings.Join" && len(call.Args) == 2 && strings.HasSuffix(types.ExprString(call.Args[0]), ".Literals") {
+			if fullName(fn) == "strings.Join" && len(call.Args) == 2 && isLiteralsOfOutput(gp, fd, call.Args[0], 0) {
 				if s, ok := constString(gp.TypesInfo, call.Args[1]); ok {
 					joinSep, joinPos = s, call.Pos()
 					joinsHere = true
@@ -779,4 +779,52 @@ func textFileNameCanonical(c *Ctx, rule string) {
 		c.check(dom, rule, fmt.Sprintf("%s|resolve#%d-after-name-mapping", key, i+1), c.pos(r.Pos()), "the path is resolved after the generated-file name was mapped to the template name",
 			fmt.Sprintf("GetDevModeTextFileName resolves the path (%s) before it maps the …_templ.go name to the template's name: the running program resolves the generated Go file while the generator resolves the template — when the template is a symbolic link (or the two differ in any other way the file system can see) they compute different text file names and development mode renders nothing", types.ExprString(r.Fun)))
 	}
+}
+
+
+// isLiteralsOfOutput: e is the Literals field of a generator.GeneratorOutput, or a []string parameter of fd that every
+// call of fd in the package is handed such a field for (the writing of the text file moved into a helper).
+func isLiteralsOfOutput(p *packages.Package, fd *ast.FuncDecl, e ast.Expr, depth int) bool {
+	info := p.TypesInfo
+	e = ast.Unparen(e)
+	if se, ok := e.(*ast.SelectorExpr); ok && se.Sel.Name == "Literals" {
+		if sel, ok := info.Selections[se]; ok && sel.Kind() == types.FieldVal && strings.HasSuffix(strings.TrimPrefix(sel.Recv().String(), "*"), "/generator.GeneratorOutput") {
+			return true
+		}
+	}
+	id, ok := e.(*ast.Ident)
+	if !ok || fd == nil || depth > 1 {
+		return false
+	}
+	idx := -1
+	k := 0
+	for _, prm := range fd.Type.Params.List {
+		for _, nm := range prm.Names {
+			if info.Defs[nm] == info.ObjectOf(id) {
+				idx = k
+			}
+			k++
+		}
+	}
+	if idx < 0 {
+		return false
+	}
+	nsites, all := 0, true
+	for _, cfd := range allFuncDecls(p) {
+		if cfd.Body == nil {
+			continue
+		}
+		ast.Inspect(cfd.Body, func(n ast.Node) bool {
+			call, ok := n.(*ast.CallExpr)
+			if !ok || types.Object(calleeOf(info, call)) != info.Defs[fd.Name] || idx >= len(call.Args) {
+				return true
+			}
+			nsites++
+			if !isLiteralsOfOutput(p, cfd, call.Args[idx], depth+1) {
+				all = false
+			}
+			return true
+		})
+	}
+	return nsites > 0 && all
 }
